@@ -523,10 +523,13 @@ func (in *interp) getField(i int) Value {
 	return NumStr(in.fields[i-1])
 }
 
-// fieldAssigned tracks which fields hold assigned (string) values rather than input text.
-func (in *interp) setField(i int, s string) {
+// setField assigns a field.  The field keeps the type of the assigned value:
+// a string stays a string, a number or input-derived text compares
+// numerically when its text looks like a number (fields are variables).
+func (in *interp) setField(i int, v Value) {
+	s := v.ToStr(in.convfmt)
 	if i == 0 {
-		in.setLine(s, true)
+		in.setLine(s, v.isStr())
 		return
 	}
 	if i > maxField {
@@ -543,7 +546,7 @@ func (in *interp) setField(i int, s string) {
 		in.fieldIsStr = append(in.fieldIsStr, true)
 	}
 	in.fields[i-1] = s
-	in.fieldIsStr[i-1] = true
+	in.fieldIsStr[i-1] = v.isStr()
 	in.nf = Num(float64(len(in.fields)))
 	in.rebuild()
 }
@@ -779,7 +782,7 @@ func (in *interp) store(l lref, v Value) {
 	case "elem":
 		in.array(l.name)[l.key] = v
 	default:
-		in.setField(l.index, v.ToStr(in.convfmt))
+		in.setField(l.index, v)
 	}
 }
 
@@ -1361,15 +1364,12 @@ func (in *interp) getline(n *awk.Node) Value {
 	}
 	if hasTarget {
 		if l.kind == "field" {
-			in.setField(l.index, line)
+			in.setField(l.index, NumStr(line))
 		} else {
 			in.store(l, NumStr(line))
 		}
 	} else {
-		in.setLine(line, file != nil)
-		if file == nil {
-			in.lineIsAssigned = false
-		}
+		in.setLine(line, false) // input text, whatever its source
 	}
 	return Num(ret)
 }
